@@ -143,6 +143,7 @@ ATOMIC_KINDS = [
     ("int32", 65536, ["i32", "u32"]),
     ("int64", 65536, ["i64", "u64"]),
     ("bool", 2, ["bool"]),
+    ("flag", 2, ["flag"]),
     ("ptr", 65536, ["ptr"]),
     ("float", 65536, ["f32", "f64"]),
 ]
